@@ -156,6 +156,14 @@ fn main() {
             std::process::exit(2);
         }
     };
+    let mut rep = rep;
+    let abandoned = fips204_verif::engine::ABANDONED.load(std::sync::atomic::Ordering::Relaxed);
+    if abandoned > 0 {
+        rep.note(format!("{abandoned} call(s) of the code under test did not return within their time limit and were abandoned"));
+        if rep.violations.is_empty() {
+            rep.inconclusive = Some(format!("{abandoned} call(s) of the code under test did not return within the time limit (hang); no violation found elsewhere"));
+        }
+    }
     let wall = t0.elapsed().as_secs_f64();
     let json = rep.to_json(&ctx, wall);
     if let Some(p) = report_path {
@@ -178,5 +186,6 @@ fn main() {
         eprintln!("INCONCLUSIVE: {why}");
         std::process::exit(2);
     }
+    // (abandoned threads may still be spinning: leave through exit, not through the end of main)
     std::process::exit(if rep.violations.is_empty() { 0 } else { 1 });
 }
